@@ -76,7 +76,7 @@ Definition full_of (tb : tables) (sv : seen) : full_reply :=
   match sv with
   | SFullOk sid valid hk =>
       FOk {| f_sid := sid_of sid; f_user := None; f_valid := valid; f_dur := t_dur tb; f_lease := t_lease tb;
-             f_key := if hk then Some {| k_data := []; k_proto := [] |} else None;
+             f_key := if hk then Some {| k_data := repeat x00 32; k_proto := s_AES |} else None;
              f_authmethods := []; f_crypto := [] |}
   | _ => FFail
   end.
